@@ -77,6 +77,8 @@ class Cones:
                         self._busy.discard(prod)
             else:
                 m.add(("load", it["path"], self.load_fp(it["path"])))
+        elif t == "shadow":
+            m.add(("helper", it["name"], "\n".join(ir.shadow_text(it["name"]))))
         elif t == "ext":
             m.add(("ext", "extlib.ext_fn"))
         elif t == "extvar":
@@ -101,6 +103,14 @@ class Cones:
         m = {("text", "\n".join(ir.render_func(prog, fn)))}
         for i, it in enumerate(f["body"]):
             m |= self._item_members(fn, i, it)
+        if f["kind"] != "target":
+            # (every parameter of a helper / data function is left to its default; for a kept target the keep site
+            # decides which defaults are used: fp_keep)
+            for (_, d) in f["params"]:
+                vn = ir.default_var(d)
+                if vn:
+                    v = prog["vars"][vn]
+                    m.add(("var", vn, ir.render_value(v["kind"], v["value"])))
         self._sc[fn] = frozenset(m)
         return self._sc[fn]
 
@@ -128,6 +138,21 @@ class Cones:
                 bind[n] = repr(d)
         return sorted(bind.items())
 
+    def _used_default_vars(self, caller, i):
+        """Module variables that are the default value of a parameter the keep site leaves unbound."""
+        prog = self.prog
+        it = prog["funcs"][caller]["body"][i]
+        g = prog["funcs"][it["f"]]
+        npos = sum(1 for a in it["args"] if not a["k"].startswith("kw"))
+        named = {a.get("n") for a in it["args"] if a["k"].startswith("kw")}
+        m = set()
+        for k, (n, d) in enumerate(g["params"]):
+            vn = ir.default_var(d)
+            if vn and k >= npos and n not in named:
+                v = prog["vars"][vn]
+                m.add(("var", vn, ir.render_value(v["kind"], v["value"])))
+        return m
+
     def ctx(self, caller, i):
         """Call-site context of the keep at (caller, i)."""
         prog = self.prog
@@ -141,6 +166,17 @@ class Cones:
         for a in g["body"][i].get("args", []):
             if a["k"] in ("rtcall", "kwrtcall"):
                 m |= self.sc(a["f"])
+        # the caller's own default values may be passed on as run-time arguments
+        if g["kind"] == "target":
+            site = self.keep_site(caller)
+            if site is not None:
+                m |= self._used_default_vars(*site)
+        else:
+            for (_, d) in g["params"]:
+                vn = ir.default_var(d)
+                if vn:
+                    v = prog["vars"][vn]
+                    m.add(("var", vn, ir.render_value(v["kind"], v["value"])))
         m |= self.binding_of(caller)
         return m
 
@@ -163,6 +199,7 @@ class Cones:
             return self._fp[key]
         it = self.prog["funcs"][caller]["body"][i]
         m = set(self.sc(it["f"]))
+        m |= self._used_default_vars(caller, i)
         sb = self.static_binding(caller, i)
         if sb is not None:
             m |= {("bind", n, v) for n, v in sb}
